@@ -254,6 +254,15 @@ def _same_string(got, want_items):
     return got == ''.join(want_items)
 
 
+def _flat_strs(r):
+    """the strings of a (nested) list / array of strings, in logical (row-major) order"""
+    if isinstance(r, str):
+        return [r]
+    if isinstance(r, (list, tuple)):
+        return [y for x in r for y in _flat_strs(x)]
+    return [y for x in elems(r) for y in _flat_strs(x)]
+
+
 @contract
 class StringsProof(Contract):
     """Deductive part of C11 (codes symbolic, all codes of the format at once): bin() with / without binary point
@@ -277,13 +286,19 @@ class StringsProof(Contract):
             for s in (True, False):
                 for f in sorted({0, n // 2}):
                     yield dict(signed=s, n_word=n, n_frac=f, shape=[2])
+        # 2-d arrays in C and Fortran (transposed) memory order: rendering only, every position shows its own code
+        for s in (True, False):
+            for fo in (False, True):
+                yield dict(signed=s, n_word=3, n_frac=1, shape=[2, 2], forder=fo)
 
     def inputs(self, cfg, D):
         return {'c': codes_in(D, 'c', nelem(cfg.get('shape', [])), cfg['signed'], cfg['n_word'])}
 
     def run(self, cfg, P, inp):
         s, n, f = cfg['signed'], cfg['n_word'], cfg['n_frac']
-        x = make_fxp(P, s, n, f, codes=inp['c'], shape=tuple(cfg.get('shape', ())), vdtype=float)
+        x = make_fxp(P, s, n, f, codes=inp['c'], shape=tuple(cfg.get('shape', ())), vdtype=float, forder=bool(cfg.get('forder')))
+        if len(cfg.get('shape', ())) == 2:
+            return {'bin2': _flat_strs(x.bin()), 'hex2': _flat_strs(x.hex()), 'bin_pref2': _flat_strs(x.bin(prefix='0b'))}
         o = {'bin': x.bin(), 'bin_dot': x.bin(frac_dot=True), 'bin_pref': x.bin(prefix='0b'), 'hex': x.hex()}
         o['raw_bin'] = P.Fxp(o['bin_pref'], s, n, f, raw=True).val
         o['raw_hex'] = P.Fxp(o['hex'], s, n, f, raw=True).val
@@ -298,6 +313,14 @@ class StringsProof(Contract):
         if obs['exc']:
             return {}
         s, n, f = cfg['signed'], cfg['n_word'], cfg['n_frac']
+        if len(cfg.get('shape', ())) == 2:
+            k = len(inp['c'])
+            out = {'render_shape': all(len(obs[key]) == k for key in ('bin2', 'hex2', 'bin_pref2'))}
+            if out['render_shape']:
+                out['render_bin'] = And(*[_same_string(obs['bin2'][i], _sym_bits(inp['c'][i], n)) for i in range(k)])
+                out['render_bin_prefix'] = And(*[_same_string(obs['bin_pref2'][i], ['0', 'b'] + _sym_bits(inp['c'][i], n)) for i in range(k)])
+                out['render_hex'] = And(*[_same_string(obs['hex2'][i], ['0', 'x'] + _sym_hex(inp['c'][i], n)) for i in range(k)])
+            return out
         if cfg.get('shape'):
             # arrays: bin()/hex() return one string per element, parsing a list of strings restores every code
             k = len(inp['c'])
